@@ -853,6 +853,58 @@ def line_dm(c):
     return 'oslog-dm ' + hexjson({'d': c['d'], 's': c['s']})
 
 
+def retained_section(rep, rng, tier, events, words):
+    """Decoded records are values: a record keeps what it was decoded to while later records are decoded in the same
+    process.  Batches of raw events / trace-identifier words are decoded, the decoded objects are KEPT, and every object
+    is looked at once when it is produced and once more after the whole batch (words of one batch share their low 32
+    bits — namespace / type / flags — and differ in the code, or share the code and differ below)."""
+    from .. import impl  # noqa: F401
+    from pykdebugparser.os_log_event import OsLogEvent
+    sec = rep.section('retained-records')
+    sec['rule'] = ('batches of 6-24 raw events (and of trace-identifier words that agree in their low or in their high half) '
+                   'decoded one after the other with every decoded object kept alive; each object canonicalised when produced '
+                   'and again after the batch: the two must agree (and the first is what the other sections compare with the '
+                   'model)')
+    nb = 40 if tier == 'quick' else 1500
+    evs = [c for c in events]
+    for b in range(nb):
+        batch = []
+        if b % 2 == 0 and words:
+            w0 = rng.choice(words)
+            for _ in range(rng.randrange(4, 12)):
+                r = rng.random()
+                w = ((w0 & 0xffffffff) | (rng.getrandbits(32) << 32)) if r < 0.6 else \
+                    ((w0 & ~0xffffffff) | (rng.choice(words) & 0xffffffff)) if r < 0.85 else rng.choice(words)
+                batch.append(('w', w))
+            if evs:
+                batch.extend(('e', rng.choice(evs)) for _ in range(rng.randrange(0, 4)))
+            rng.shuffle(batch)
+        else:
+            batch = [('e', rng.choice(evs)) for _ in range(rng.randrange(6, 25))] if evs else []
+        kept = []
+        for kind, x in batch:
+            try:
+                if kind == 'w':
+                    obj = OsLogEvent.parse_trace_identifier(x)
+                else:
+                    obj = OsLogEvent.from_raw_log_event(unwire(copy.deepcopy(x['e'])), strings_of(x))
+            except Exception:
+                continue
+            kept.append((kind, x, obj, dumps(canon(obj))))
+        for kind, x, obj, first in kept:
+            sec['cases'] += 1
+            again = dumps(canon(obj))
+            if again != first:
+                fd = first_diff(json.loads(first), json.loads(again))
+                rep.add_failure('oslog:decoded-record-changes-later',
+                                'a decoded %s reads differently after later records were decoded in the same process: %s'
+                                % ('trace identifier %#x' % x if kind == 'w' else 'log record', fd),
+                                {'section': 'retained-records',
+                                 'batch': [[k, (y if k == 'w' else {'e': y['e'], 's': y['s']})] for k, y in batch]})
+                break
+            sec['distinct_nontrivial'] += 1
+
+
 def correspondence(rep, rng, tier):
     ev = event_cases(rng, tier)
     run_section(rep, 'event-subsets', ev, line_event, impl_event, oracle_event,
@@ -903,6 +955,7 @@ def correspondence(rep, rng, tier):
                     kind_fn=lambda w, got: (NAMESPACES.get(w & 0xff, 'undefined-namespace') if 0 <= w < 2 ** 64
                                             else 'out-of-range') + ':' + (got[4:] if got.startswith('err') else 'ok'),
                     rule=rule, sample_fn=lambda w, name=name: {'section': name, 'word': hex(w)})
+    retained_section(rep, rng, tier, [c for c in ev if c.get('kind') != 'malformed'][:4000], words['defined'][:20000])
     run_section(rep, 'timestamp', timestamp_cases(rng, tier), lambda c: 'oslog-ts %d %d' % c, impl_timestamp,
                 oracle_timestamp, kind_fn=lambda c, got: 'sec<2^31' if c[0] < 2 ** 31 else 'sec<2^32',
                 rule='unix_date through from_raw_log_event for 0 <= sec < 2^32, 0 <= usec < 10^6: powers of two and their '
@@ -931,6 +984,29 @@ def replay(path):
     with open(path) as fd:
         r = json.load(fd)
     rp = r['replay']
+    if rp.get('section') == 'retained-records':
+        from .. import impl  # noqa: F401
+        from pykdebugparser.os_log_event import OsLogEvent
+        kept = []
+        for kind, x in rp['batch']:
+            try:
+                obj = (OsLogEvent.parse_trace_identifier(x) if kind == 'w'
+                       else OsLogEvent.from_raw_log_event(unwire(copy.deepcopy(x['e'])), strings_of(x)))
+            except Exception:
+                continue
+            kept.append((kind, x, obj, dumps(canon(obj))))
+        bad = 0
+        for kind, x, obj, first in kept:
+            again = dumps(canon(obj))
+            if again != first:
+                print('decoded %s: when produced %s' % (kind, first[:600]))
+                print('            after the batch %s' % again[:600])
+                bad += 1
+        if bad:
+            print(f'VIOLATION property=C16 replay={path}')
+            return 1
+        print('no violation on this input')
+        return 0
     sec, case = rp['section'], rp['case']
     table = {
         'event-subsets': (line_event, impl_event, oracle_event),
